@@ -49,8 +49,8 @@ cfg("asyncio_t_b3n", "C17 thorough, B = 3 with the naive low-water mark 2: solo,
     "solo", B=3, LW=2, MaxLen=4, MaxOps=4, MaxPeerOps=3)
 # two futures on ONE adapter (fixed by 0061559: one waker per direction): the normal invariants
 SH = "a reader and a writer pending on ONE adapter at the same time"
-cfg("asyncio_q_split", "C17 quick, topology split (" + SH + ": two tasks, futures' split() / Rc<RefCell>): scripts of <= 2 operations per task,\nchunk sizes 1..2, strings <= 3 bytes, peer scripts <= 3 operations.", "split", MaxOps=2, MaxChunk=2, AsyncPeer=False)
-cfg("asyncio_q_join", "C17 quick, topology join (" + SH + ": ONE task polling both, one waker): scripts of <= 2 operations per branch,\nchunk sizes 1..2, strings <= 3 bytes, peer scripts <= 3 operations.", "join", MaxOps=2, MaxChunk=2, AsyncPeer=False)
+cfg("asyncio_q_split", "C17 quick, topology split (" + SH + ": two tasks, futures' split() / Rc<RefCell>): scripts of <= 2 operations per task,\nchunk sizes 1..2, strings <= 3 bytes, peer scripts <= 2 operations.", "split", MaxOps=2, MaxChunk=2, MaxPeerOps=2, AsyncPeer=False)
+cfg("asyncio_q_join", "C17 quick, topology join (" + SH + ": ONE task polling both, one waker): scripts of <= 2 operations per branch,\nchunk sizes 1..2, strings <= 3 bytes, peer scripts <= 2 operations.", "join", MaxOps=2, MaxChunk=2, MaxPeerOps=2, AsyncPeer=False)
 cfg("asyncio_t_split", "C17 thorough, topology split: scripts of <= 3 operations per task, chunk sizes 1..2, strings <= 3 bytes, peer <= 3 operations, also in the middle of a dispatch.",
     "split", MaxOps=3, MaxChunk=2)
 cfg("asyncio_t_join", "C17 thorough, topology join: scripts of <= 3 operations per branch, chunk sizes 1..2, strings <= 3 bytes, peer <= 3 operations, also in the middle of a dispatch.",
